@@ -18,7 +18,6 @@ Open Scope Z_scope.
 
 (* ---- outcomes: value / Err(..) / panic *)
 Inductive panic_site :=
-  | PNoLastOutput        (* Transaction::blind: last_output_index.expect("Internal output calculation error") *)
   | PUnwrapExplicit      (* .explicit().unwrap() on a non-explicit field (excluded by the all-explicit check) *)
   | PPedersenInfinity    (* PedersenCommitment::new: assert_eq!(ret, 1) — commitment to value 0 with blinding factor 0 *)
   | PAddress             (* Address::from_script internal slicing/Fe32 (excluded for real templates, see C16) *)
